@@ -41,6 +41,12 @@ GROUPS = {
                                                      # ... and of TWO flat collections: np.intersect1d(return_indices) over the two np.unique
                                                      # results selects the counts of the shared values
                                                      ("pc", {"array": "coll", "array2": "coll"}, {"real": False, "suffix": "_two_samples"})]),
+    # `downsample` of one flat collection: NumPy's `random.choice(a, m, replace=False)` is a function parameter; one definition with
+    # `maxseqs` a number and one with `maxseqs=None`
+    "downsample": ("pyrepseq/distance.py", "FormulasDownsample.lean", [
+        ("downsample", {"seqs": "coll", "maxseqs": "nat"}, {"real": False, "opaque_fn": {"np.random.choice": ("choice", "List β → Nat → List β", "coll")}}),
+        ("downsample", {"seqs": "coll"}, {"real": False, "static": {"maxseqs": None}, "suffix": "_none",
+                                         "opaque_fn": {"np.random.choice": ("choice", "List β → Nat → List β", "coll")}})]),
     "richness": ("pyrepseq/stats.py", "FormulasRichness.lean", [
         ("chao1", {"counts": "vec"}), ("var_chao1", {"counts": "vec"}),
         ("chao2", {"counts": "vec", "m": "rat"}), ("var_chao2", {"counts": "vec", "m": "rat"}),
@@ -221,7 +227,7 @@ class Fn:
             if len(e.ops) != 1:
                 raise Untranslatable("chained comparison")
             if isinstance(e.ops[0], (ast.Is, ast.IsNot)) and isinstance(e.comparators[0], ast.Constant) and e.comparators[0].value is None \
-                    and isinstance(e.left, ast.Name) and self.env.get(e.left.id) in ("rat", "nat"):
+                    and isinstance(e.left, ast.Name) and self.env.get(e.left.id) in ("rat", "nat", "coll", "set", "vec"):
                 return ("False" if isinstance(e.ops[0], ast.Is) else "True"), "prop"      # a number is not None
             a, ta = self.expr(e.left)
             b, tb = self.expr(e.comparators[0])
@@ -294,9 +300,18 @@ class Fn:
 
     def call(self, e):
         name = dotted(e.func)
-        if name in self.opts.get("opaque_fn", {}) and not e.keywords:
-            # an external function (SciPy's zeta): a function parameter of the generated definition, applied to the translated arguments
-            return "(" + " ".join([self.opts["opaque_fn"][name]] + [self.as_rat(*self.expr(a_)) for a_ in e.args]) + ")", "rat"
+        if name in self.opts.get("opaque_fn", {}) and (not e.keywords or not isinstance(self.opts["opaque_fn"][name], str)):
+            # an external function (SciPy's zeta, NumPy's random.choice without replacement): a function parameter of the generated
+            # definition, applied to the translated positional arguments
+            spec = self.opts["opaque_fn"][name]
+            fname, rtype = (spec, "rat") if isinstance(spec, str) else (spec[0], spec[2])
+            if e.keywords and [(k.arg, getattr(k.value, "value", None)) for k in e.keywords] != [("replace", False)]:
+                raise Untranslatable(f"keyword arguments of {name}")
+
+            def arg(a_):
+                v_, t_ = self.expr(a_)
+                return v_ if t_ in ("coll", "set", "nat") else self.as_rat(v_, t_)
+            return "(" + " ".join([fname] + [arg(a_) for a_ in e.args]) + ")", rtype
         if name in self.opts.get("opaque", ()):
             # the value of this call is a parameter of the generated definition (one per callee; two calls of one callee must be the same call)
             text = ast.unparse(e)
@@ -434,6 +449,9 @@ class Fn:
             return self.vec_term(v)
         if t == "nat" and not self.has_nan:
             self.note_ret("Nat")
+            return v
+        if t in ("coll", "set") and not self.has_nan:
+            self.note_ret("List β")
             return v
         if t == "prop" and not self.has_nan:
             self.note_ret("Prop")
@@ -595,6 +613,23 @@ class Fn:
 
     def static_value(self, t):
         """truth value of a condition that only involves parameters fixed at translation time (None: not static)"""
+        if isinstance(t, ast.BoolOp):
+            stop = isinstance(t.op, ast.Or)                 # the value that short-circuits
+            unknown = False
+            for v_ in t.values:
+                try:
+                    r_ = self.static_value(v_)
+                except Untranslatable:
+                    if not unknown:
+                        raise
+                    r_ = None                               # only reached in Python if the unknown operand before it lets it
+                if r_ is stop:
+                    return stop
+                unknown = unknown or r_ is None
+            return None if unknown else (not stop)
+        if isinstance(t, ast.Call) and dotted(t.func) == "isinstance" and len(t.args) == 2 and isinstance(t.args[0], ast.Name) \
+                and self.env.get(t.args[0].id) in ("coll", "vec", "set") and dotted(t.args[1]) in ("DataFrame", "pd.DataFrame", "pandas.DataFrame"):
+            return False                                      # a flat collection is not a table
         if isinstance(t, ast.Compare) and len(t.ops) == 1 and isinstance(t.ops[0], (ast.Is, ast.IsNot)) and isinstance(t.left, ast.Name) \
                 and isinstance(t.comparators[0], ast.Constant) and t.comparators[0].value is None \
                 and (self.env.get(t.left.id) in ("coll", "vec", "rat", "nat", "set") or t.left.id in self.vecs) and t.left.id not in self.static:
@@ -623,18 +658,18 @@ class Fn:
 
     def lean(self):
         body = self.block(list(self.f.body), 1)
-        ret = {"Rat": "Rat", "Nat": "Nat", None: "Rat", "List Rat": "List Rat", "Prop": "Prop"}[self.ret]
+        ret = {"Rat": "Rat", "Nat": "Nat", None: "Rat", "List Rat": "List Rat", "Prop": "Prop", "List β": "List β"}[self.ret]
         if self.has_nan:
             ret = "Option Rat"
         params = []
         generic = any(t == "coll" for t in self.ptypes.values())
-        ty = lambda t: 'List Rat' if t == 'vec' else ('List β' if t == 'coll' else 'Rat')  # noqa: E731
+        ty = lambda t: 'List Rat' if t == 'vec' else ('List β' if t == 'coll' else ('Nat' if t == 'nat' else 'Rat'))  # noqa: E731
         for n_, t_ in self.externals:
             params.append(f"({n_} : {ty(t_)})")
         for n_ in self.opts.get("opaque", ()):
             params.append(f"({n_}_val : Rat)")
         for n_ in self.opts.get("opaque_fn", {}).values():
-            params.insert(0, f"({n_} : Rat → Rat → Rat)")
+            params.insert(0, f"({n_} : Rat → Rat → Rat)" if isinstance(n_, str) else f"({n_[0]} : {n_[1]})")
         for a in self.f.args.args:
             if a.arg in self.static or a.arg in self.opts.get("drop", []):
                 continue
@@ -723,12 +758,16 @@ def gen_entropy():
     return gen_real(ENTROPY_GROUP)
 
 
+def gen_downsample():
+    return gen_group("downsample")
+
+
 def gen_std():
     return gen_real(STD_GROUP)
 
 
 def main():
-    return [gen_group(g) for g in GROUPS] + [gen_real(), gen_entropy(), gen_std()]
+    return [gen_group(g) for g in GROUPS] + [gen_real(), gen_entropy(), gen_std()]        # GROUPS includes "downsample"
 
 
 if __name__ == "__main__":
